@@ -46,6 +46,22 @@ def jobs(ctx):
 # ---------------------------------------------------------------------------------------------------------
 # generic: run a line script through harness and model in parallel chunks
 
+def infra(cond, what):
+    """the check's own machinery misbehaved: never a pass"""
+    if not cond:
+        raise vlib.CheckFailure(what)
+
+
+def model_lines(ctx, lines, what, timeout=3600):
+    """the native model on a script; one answer per line or the check cannot go on"""
+    infra(len(lines) > 0, "%s: empty script for the model (generator produced nothing)" % what)
+    out = ctx.driver(["c07"], "\n".join(lines) + "\n", timeout=timeout)
+    infra(len(out) == len(lines), "%s: model driver answered %d lines for %d operations" % (what, len(out), len(lines)))
+    bad = [(l, o) for l, o in zip(lines, out) if o == "bad-op"]
+    infra(not bad, "%s: model driver does not understand %d operation(s), first: %s" % (what, len(bad), bad[0][0][:200] if bad else ""))
+    return out
+
+
 def run_harness(ctx, exe, lines, timeout=900):
     """returns (outputs, crash) ; crash = (index, rc, stderr) when the harness died before answering every line"""
     text = "\n".join(lines) + "\n"
@@ -62,15 +78,14 @@ def run_harness(ctx, exe, lines, timeout=900):
 def run_chunks(ctx, exe, model_args, lines, nchunks, want_model=True):
     """split `lines` into chunks; run harness and model on each chunk concurrently.  Returns (impl, model, crashes)
     where crashed chunks are re-run line by line to isolate the offending input."""
-    if not lines:
-        return [], [], []
+    infra(len(lines) > 0, "empty script for %s (generator produced nothing)" % exe)
     n = max(1, min(nchunks, len(lines) // 50 or 1))
     size = (len(lines) + n - 1) // n
     chunks = [lines[i:i + size] for i in range(0, len(lines), size)]
 
     def one(ch):
         impl, crash = run_harness(ctx, exe, ch)
-        model = ctx.driver(model_args, "\n".join(ch) + "\n") if want_model else []
+        model = model_lines(ctx, ch, str(exe)) if want_model else []
         return impl, model, crash
 
     with ThreadPoolExecutor(max_workers=n) as ex:
@@ -90,8 +105,14 @@ def run_chunks(ctx, exe, model_args, lines, nchunks, want_model=True):
                     i.append("CRASH rc=%s" % c[1])
                 else:
                     i.append(o[0])
+        infra(len(i) == len(ch), "harness %s: %d answers for a chunk of %d operations" % (exe, len(i), len(ch)))
         impl += i
         model += m
+    infra(len(impl) == len(lines) and (not want_model or len(model) == len(lines)),
+          "harness %s / model: %d / %d answers for %d operations" % (exe, len(impl), len(model), len(lines)))
+    nbad = sum(1 for a in impl if a == "bad-op")
+    infra(nbad == 0, "harness %s does not understand %d operation(s), first: %s" % (
+        exe, nbad, next((l for l, a in zip(lines, impl) if a == "bad-op"), "")[:200]))
     return impl, model, crashes
 
 
@@ -103,7 +124,67 @@ HL_SOURCES = ["h_c07_hl.c", "lib/fstree/src/fstree.c", "lib/fstree/src/hardlink.
 
 
 def hl_line(ents):
-    return "hl " + " ".join("%s:%s:%s" % (k, tok(n), tok(t)) for k, n, t in ents)
+    """entries (kind, name, target); kind 'c' = set-up step `link_count = target` (target: an int)"""
+    return "hl " + " ".join(("c:%s:%d" % (tok(n), t)) if k == "c" else ("%s:%s:%s" % (k, tok(n), tok(t))) for k, n, t in ents)
+
+
+def max_dir_nesting():
+    """SQFS_MAX_DIR_NESTING of the working tree (the generated Lean constant the model uses)"""
+    m = re.search(r"def sqfsMaxDirNesting : Nat := (\d+)", (vlib.LEAN / "Sqfs" / "Generated" / "Consts.lean").read_text())
+    infra(m is not None, "Sqfs/Generated/Consts.lean has no sqfsMaxDirNesting")
+    return int(m.group(1))
+
+
+def hl_saturated(maxn):
+    """the `link_count == 0xFFFFFFFF` guards of resolve_link and mknode: every graph over <= maxn names (one insertion
+    order) with the link count of one non-link node (or of the root) preset to 2^32-1 / 2^32-2 right after its creation"""
+    names = [b"a", b"b", b"c"]
+    out = []
+    for n in range(1, maxn + 1):
+        ns = names[:n]
+        choices = [("f", b""), ("d", b"")] + [("l", t) for t in ns] + [("l", b"")]
+        for combo in itertools.product(choices, repeat=n):
+            if not any(k == "l" for k, _ in combo):
+                continue
+            ents = [(k, ns[i], t) for i, (k, t) in enumerate(combo)]
+            for v in (0xFFFFFFFF, 0xFFFFFFFE):
+                out.append(hl_line([("c", b"", v)] + ents))                      # the root: mknode's guard on the parent
+                for i, (k, nm, _) in enumerate(ents):
+                    if k != "l":
+                        out.append(hl_line(ents[:i + 1] + [("c", nm, v)] + ents[i + 1:]))
+    # a saturated directory refuses a child (mknode), an unsaturated one takes exactly one more
+    for v in (0xFFFFFFFF, 0xFFFFFFFE):
+        out.append(hl_line([("d", b"a", b""), ("c", b"a", v), ("f", b"a/x", b""), ("f", b"a/y", b"")]))
+        out.append(hl_line([("d", b"a", b""), ("c", b"a", v), ("l", b"a/x", b"a/y"), ("f", b"a/y", b"")]))
+        out.append(hl_line([("f", b"t", b""), ("c", b"t", v), ("l", b"l1", b"t"), ("l", b"l2", b"l1"), ("l", b"l3", b"t")]))
+    out.append(hl_line([("c", b"nowhere", 5), ("f", b"a", b"")]))
+    out.append(hl_line([("f", b"a", b""), ("c", b"a/b", 5)]))
+    return out
+
+
+def hl_deep(rng, limit, count):
+    """directories nested around SQFS_MAX_DIR_NESTING (mknode refuses deeper ones with ENAMETOOLONG; a non-directory one
+    level below the deepest directory is fine), created implicitly or explicitly, with hard links into / out of the chain"""
+    def deep(k, leaf=b""):
+        return b"/".join([b"a"] * k) + leaf
+    out = []
+    for k in (limit - 1, limit, limit + 1, limit + 2):
+        out.append(hl_line([("d", deep(k), b"")]))
+        out.append(hl_line([("f", deep(k), b"")]))
+        out.append(hl_line([("l", deep(k), b"b"), ("f", b"b", b"")]))
+    out.append(hl_line([("d", deep(limit), b""), ("f", deep(limit, b"/f"), b""), ("l", b"x", deep(limit, b"/f"))]))
+    out.append(hl_line([("d", deep(limit), b""), ("d", deep(limit, b"/d"), b"")]))
+    out.append(hl_line([("f", deep(limit + 1), b""), ("l", b"y", deep(limit)), ("l", b"z", deep(limit + 1))]))
+    for _ in range(count):
+        k = limit + rng.choice([-2, -1, 0, 0, 1, 1, 2, 7])
+        kind = rng.choice("dfl")
+        ents = [(kind, deep(k), b"t" if kind == "l" else b""), ("f", b"t", b"")]
+        if rng.random() < 0.5:
+            ents.append(("l", b"q", deep(rng.choice([k - 1, k, limit, limit + 1]))))
+        if rng.random() < 0.3:
+            ents.insert(0, ("d", deep(rng.choice([limit - 1, limit])), b""))
+        out.append(hl_line(ents))
+    return out
 
 
 def hl_exhaustive(maxn, all_orders_upto):
@@ -214,21 +295,32 @@ def check_hardlinks(ctx, stats):
     if cdir.exists():
         for p in sorted(cdir.glob("hl*.txt")):
             corpus += [l for l in p.read_text().splitlines() if l.startswith("hl ")]
+    limit = max_dir_nesting()
     if ctx.quick():
         lines = hl_exhaustive(4, 3)
         rnd = hl_random(ctx.rng, 1500, 40) + hl_random(ctx.rng, 60, 300)
+        sat = hl_saturated(2)
+        deep = hl_deep(ctx.rng, limit, 2)
     else:
         lines = hl_exhaustive(4, 4)
         rnd = hl_random(ctx.rng, 20000, 40) + hl_random(ctx.rng, 400, 400)
+        sat = hl_saturated(3)
+        deep = hl_deep(ctx.rng, limit, 30)
     nexh = len(lines)
-    lines = corpus + lines + rnd
-    ctx.log("hard links: %d graphs (%d exhaustive)" % (len(lines), nexh))
+    infra(nexh > 1000 and len(rnd) > 100 and len(sat) > 20 and len(deep) >= 15, "hard-link generators produced too little")
+    lines = corpus + lines + rnd + sat
+    ctx.log("hard links: %d graphs (%d exhaustive, %d with a saturated link count) + %d around the nesting limit %d" % (
+        len(lines), nexh, len(sat), len(deep), limit))
     impl, model, crashes = run_chunks(ctx, exe, ["c07"], lines, jobs(ctx))
+    # the deep chains cost the list-based model ~0.5 s each: their own, evenly split script
+    di, dm, dc = run_chunks(ctx, exe, ["c07"], deep, min(jobs(ctx), 4) if ctx.quick() else jobs(ctx))
+    lines, impl, model, crashes = lines + deep, impl + di, model + dm, crashes + dc
     for bad, rc, err in crashes[:5]:
         ctx.violation("hl-crash:" + vlib.sha(bad)[:12], "fstree_add_generic/fstree_resolve_hard_links aborted (rc=%s): %s" % (rc, err[-600:]),
                       {"unit": "hl", "line": bad, "stderr": err})
     hist = {}
     spins, mism = [], []
+    infra(len(lines) == len(impl) == len(model), "hard links: %d lines, %d / %d answers" % (len(lines), len(impl), len(model)))
     for l, a, b in zip(lines, impl, model):
         cls = b.split()[0] + ((" " + b.split()[-1]) if b.startswith(("err", "adderr")) else "")
         hist[cls] = hist.get(cls, 0) + 1
@@ -240,7 +332,7 @@ def check_hardlinks(ctx, stats):
             mism.append((l, a, b))
     if spins:
         # does the model of the *shipped* loop predict non-termination for these graphs?
-        cur = ctx.driver(["c07"], "\n".join("hlcur 5000 " + l[3:] for l in spins) + "\n")
+        cur = model_lines(ctx, ["hlcur 5000 " + l[3:] for l in spins], "hlcur")
         shown = 0
         for l, c in zip(spins, cur):
             if c == "spin":
@@ -252,7 +344,7 @@ def check_hardlinks(ctx, stats):
                 ctx.violation("hl-timeout:" + vlib.sha(l)[:12], "fstree_resolve_hard_links did not return within 10 ms CPU on: %s" % l,
                               {"unit": "hl", "line": l, "impl": "timeout", "model_shipped": c})
     if mism:
-        specs = ctx.driver(["c07"], "\n".join("hlspec " + l[3:] for l, _, _ in mism[:200]) + "\n")
+        specs = model_lines(ctx, ["hlspec " + l[3:] for l, _, _ in mism[:200]], "hlspec")
         shown = 0
         for (l, a, b), sp in zip(mism[:200], specs):
             bad = hl_spec_verdict(l, a, sp)
@@ -267,7 +359,10 @@ def check_hardlinks(ctx, stats):
                 ctx.violation("hl-corr:" + vlib.sha(l)[:12], "hard-link resolution: real code answers %r, model %r on %s (no clause of the "
                               "specification is violated by the answer)" % (a, b, l),
                               {"unit": "hl", "line": l, "impl": a, "model": b, "spec": sp}, found_input=False)
+    infra(any(k.endswith("ENAMETOOLONG") for k in hist) and any(k == "err EMLINK" for k in hist) and any(k == "adderr EMLINK" for k in hist),
+          "hard links: no generated input reached the nesting limit / the saturated link count (%s)" % sorted(hist))
     stats["hl"] = {"evaluations": len(lines), "exhaustive_graphs_le4_names": nexh, "random": len(rnd), "corpus": len(corpus),
+                   "saturated_link_count": len(sat), "around_nesting_limit": len(deep), "nesting_limit": limit,
                    "model_result_histogram": hist, "impl_timeouts": len(spins), "mismatches": len(mism),
                    "samples": [{"line": lines[i], "impl": impl[i], "model": model[i]} for i in (0, nexh // 2, len(lines) - 1)]}
     return len(lines), sum(v for k, v in hist.items() if not k.startswith("ok")), len(spins) + len(mism)
@@ -290,13 +385,13 @@ def pax_rec(k, v, lenfield=None):
     return (str(n).encode() if lenfield is None else lenfield) + b" " + body
 
 
-def gen_parser_lines(ctx, numfx, paxfx):
+def gen_parser_lines(ctx):
     rng, q = ctx.rng, ctx.quick()
     L = []
     # read_number: all short fields over the alphabet named in the property + typical widths
     A = [0x30, 0x37, 0x38, 0x20, 0x00, 0x80, 0xff, 0x31]
     for b in prod(A, 4 if q else 5, 1):
-        L.append("num %d %s %d" % (numfx, tok(b), len(b)))
+        L.append("num %s %d" % (tok(b), len(b)))
     for _ in range(4000 if q else 40000):
         w = rng.choice([8, 12, 12, 1, 2, 7, 9, 16, 21, 22, 23, 24])     # > 21 octal digits reach the overflow guard
         r = rng.random()
@@ -309,7 +404,17 @@ def gen_parser_lines(ctx, numfx, paxfx):
         else:
             b = bytes(rng.choice(A + [0x39, 0x09, 0x0a]) for _ in range(w))
         extra = bytes(rng.randrange(256) for _ in range(rng.choice([0, 0, 3])))
-        L.append("num %d %s %d" % (numfx, tok(b + extra), w))
+        L.append("num %s %d" % (tok(b + extra), w))
+    # base-256 numbers around the overflow / sign guards of read_binary (the 1.2.0 guard let the first kind wrap)
+    for _ in range(1500 if q else 15000):
+        w = rng.choice([8, 9, 9, 10, 12, 12, 16])
+        neg = rng.random() < 0.5
+        body = bytearray((0xff if neg else 0x00) for _ in range(w - 1))
+        for _ in range(rng.choice([0, 1, 1, 2, 3])):
+            body[rng.randrange(w - 1)] = rng.choice([0x00, 0xff, 0x7f, 0x80, 0x01, 0xfe, rng.randrange(256)])
+        first = 0xff if neg else rng.choice([0x80, 0x80, 0x81, 0xc0, 0xbf])
+        L.append("num %s %d" % (tok(bytes([first]) + bytes(body)), w))
+    L.append("num %s 9" % PARSE_PROBE_NUM)
     # parse_uint / parse_int
     for sbytes in prod([0x30, 0x39, 0x2d, 0x31, 0x20, 0x78, 0x38], 4 if q else 5):
         L.append("pint -1 1 %s" % tok(sbytes))
@@ -374,7 +479,12 @@ def gen_parser_lines(ctx, numfx, paxfx):
                 recs.append(bytes(rng.choice(b"0123456789 =\nab\0") for _ in range(rng.randrange(1, 20))))
         rec = b"".join(recs)
         if rec:
-            L.append("pax %d %s" % (paxfx, tok(rec)))
+            L.append("pax %s" % tok(rec))
+    # GNU.sparse.* records in every order of three (incl. numbytes, map, numbytes: the use after free of 1.2.0)
+    sp = [(b"GNU.sparse.numbytes", b"1"), (b"GNU.sparse.numbytes", b"2"), (b"GNU.sparse.map", b"0,1"), (b"GNU.sparse.map", b"0,1,2,3"),
+          (b"GNU.sparse.offset", b"7"), (b"GNU.sparse.map", b"x"), (b"GNU.sparse.numbytes", b"")]
+    for combo in itertools.product(sp, repeat=3):
+        L.append("pax %s" % tok(b"".join(pax_rec(k, v) for k, v in combo)))
     # GNU 1.0 sparse maps: numbers separated by newlines in 512-byte blocks, then the data
     for _ in range(1500 if q else 20000):
         cnt = rng.choice([0, 1, 1, 2, 3, 10, 60, 100, 70000])
@@ -411,66 +521,140 @@ def gen_parser_lines(ctx, numfx, paxfx):
             stream += bytes(blk)
         if rng.random() < 0.15:
             stream = stream[:rng.randrange(len(stream) + 1)]
-        L.append("spold %d %s %s" % (numfx, tok(bytes(h)), tok(stream)))
+        L.append("spold %s %s" % (tok(bytes(h)), tok(stream)))
+    L += gen_getline_lines(ctx)
     return L
 
 
-def norm(ans):
-    """answers whose failure code the real function does not expose are compared by status only"""
-    return ans
+def istream_bufsz():
+    """BUFSZ of the buffered file istream of the working tree (the `gl` model is run with it; by
+    `read_lines_chunking_independent` its answers do not depend on the value)"""
+    m = re.search(r"#define\s+BUFSZ\s+\(?\s*(\d+)\s*\)?", (vlib.REPO / "lib" / "sqfs" / "src" / "io" / "istream.c").read_text())
+    infra(m is not None, "lib/sqfs/src/io/istream.c no longer defines BUFSZ as a literal: cannot place lines at the buffer boundary")
+    return int(m.group(1))
+
+
+def gl_content(parts):
+    """content tokens of the `gl` op: (bytes) literal or (count, byte) run"""
+    toks = []
+    for p in parts:
+        if isinstance(p, tuple):
+            if p[0] > 0:
+                toks.append("r%dx%02x" % (p[0], p[1]))
+        elif p:
+            toks.append("h" + p.hex())
+    return " ".join(toks)
+
+
+def gen_getline_lines(ctx):
+    """text inputs larger than the istream buffer: lines straddling the boundary, longer than one / two buffers, CR and
+    LF on either side of it, blanks to trim around it, empty lines to skip there, missing final newline"""
+    rng, q = ctx.rng, ctx.quick()
+    B = istream_bufsz()
+    L = []
+    FLAGS = [0, 1, 2, 3, 4, 5, 6, 7]
+    def add(flags, parts):
+        L.append("gl %d %d %s" % (B, flags, gl_content(parts)))
+    # small inputs, every flag set: all strings over {a, space, CR, LF, NUL} up to length 4 (5 in thorough)
+    for fl in FLAGS:
+        for b in prod([0x61, 0x20, 0x0d, 0x0a, 0x00], 4 if q else 5):
+            add(fl, [b])
+    # the byte before / at / after the boundary is each of: letter, blank, CR, LF; a few lines on either side
+    edge = [b"a", b" ", b"\r", b"\n", b"\t", b"#", b"\0"]
+    for fl in (5, 7, 0):
+        for k in (-2, -1, 0, 1):
+            for x in edge:
+                for y in edge:
+                    add(fl, [b"dir /d 0755 0 0\n", (B - 16 + k - 1, 0x62), x, y, b"c d\r\n\n  tail"])
+    for _ in range(60 if q else 1200):
+        fl = rng.choice([5, 5, 7, 7, 0, 1, 2, 3, 4, 6])
+        parts = []
+        pos = 0
+        target = rng.choice([B, B, 2 * B, B]) + rng.randrange(-3, 4)
+        # head: a few ordinary lines, then one filler line that ends `gap` bytes before the target offset
+        for _ in range(rng.randrange(0, 4)):
+            l = bytes(rng.choice(b"ab \t#\"\\") for _ in range(rng.randrange(0, 12))) + rng.choice([b"\n", b"\r\n", b"\n\n"])
+            parts.append(l); pos += len(l)
+        gap = rng.choice([0, 0, 1, 2, 3, 10, 100])
+        fill = target - pos - gap - 1
+        if fill > 0:
+            parts += [(fill, rng.choice([0x61, 0x20, 0x23])), b"\n"]
+            pos += fill + 1
+        # the line that meets the boundary
+        kind = rng.random()
+        if kind < 0.3:
+            body = bytes(rng.choice(b"xy \r\t") for _ in range(rng.randrange(1, 8)))
+        elif kind < 0.5:
+            body = b" " * rng.randrange(0, 5) + b"z" * rng.randrange(0, 5) + b" " * rng.randrange(0, 5) + rng.choice([b"", b"\r", b"\r\r"])
+        elif kind < 0.7:
+            parts.append((rng.choice([B - 1, B, B + 1, 2 * B + 5, 3 * B]), rng.choice([0x71, 0x20])))      # longer than the buffer
+            body = rng.choice([b"", b"\r", b" end", b"\0x"])
+        else:
+            body = b"\n" * rng.randrange(0, 4) + b" \n" * rng.randrange(0, 3)
+        parts.append(body)
+        parts.append(rng.choice([b"\n", b"\r\n", b"", b"\nlast", b"\nlast\n", b"\n\n\n", b"\r"]))
+        add(fl, parts)
+    # degenerate shapes
+    for fl in (0, 5, 7):
+        add(fl, [])
+        add(fl, [(B, 0x0a)])
+        add(fl, [(B + 1, 0x20)])
+        add(fl, [(B, 0x61)])
+        add(fl, [(B - 1, 0x61), b"\n"])
+        add(fl, [(B - 1, 0x61), b"\r", b"\n"])
+        add(fl, [(B - 2, 0x61), b"\r\n", b"b"])
+        add(fl, [(3 * B + 7, 0x61)])
+        add(fl, [(70, 0x0a), (B - 70, 0x20), (5, 0x0a), b"x"])
+    return L
 
 
 def same_answer(op, a, b):
-    if a == b:
-        return True
-    if op in ("pax", "spnew", "spold", "dfn") and a.split()[:1] == ["fail"] and b.split()[:1] == ["fail"]:
-        return True
-    return False
+    """no exemptions: failures are compared by the class of the diagnostic too (the harness reads it off stderr)"""
+    return a == b
 
 
 PARSE_PROBE_NUM = "ff00ff80007f64e0ff"      # negative base-256 number (9 digits) whose top byte stops being 0xFF: the 1.2.0 guard lets it wrap, 9ba238f refuses it
 
 
-def check_parsers(ctx, stats):
+def parse_harness(ctx):
     lib = ctx.build_lib("san")
-    exe = ctx.cc("h_c07_parse", ["h_c07_parse.c"], flags=["-I%s" % (vlib.REPO / "bin" / "gensquashfs" / "src")],
-                 libs=[str(lib)] + vlib.CODEC_LIBS + (["-lselinux"] if os.path.exists("/usr/include/selinux/selinux.h") else []))
-    # which variant of read_binary / read_pax_header does the working tree have?
-    probe = "num %%d %s 9" % PARSE_PROBE_NUM
-    impl, _ = run_harness(ctx, exe, [probe % 0], timeout=120)
-    m0, m1 = ctx.driver(["c07"], (probe % 0) + "\n" + (probe % 1) + "\n")
-    numfx = 1 if (impl and impl[0] == m1 and m0 != m1) else 0
-    uaf = "pax 0 " + tok(pax_rec(b"GNU.sparse.numbytes", b"1") + pax_rec(b"GNU.sparse.map", b"0,1") + pax_rec(b"GNU.sparse.numbytes", b"2"))
-    impl, crash = run_harness(ctx, exe, [uaf], timeout=120)
-    paxfx = 0 if crash else 1
-    if crash:
-        ctx.violation(crash_key(crash[2]) or ("pax-crash:" + vlib.sha(uaf)[:12]),
-                      "read_pax_header aborts on GNU.sparse.numbytes, GNU.sparse.map, GNU.sparse.numbytes in one extended header: %s" % san_head(crash[2]),
-                      {"unit": "parse", "line": uaf, "stderr": crash[2]})
+    return ctx.cc("h_c07_parse", ["h_c07_parse.c"], flags=["-I%s" % (vlib.REPO / "bin" / "gensquashfs" / "src")],
+                  libs=[str(lib)] + vlib.CODEC_LIBS + (["-lselinux"] if os.path.exists("/usr/include/selinux/selinux.h") else []))
+
+
+PARSE_OPS = ("num", "puint", "pint", "hex", "b64", "split", "dfn", "xdec", "pax", "spnew", "spold", "gl", "rh")
+
+
+def check_parsers(ctx, stats):
+    """The model mirrors the *current* code of the working tree and nothing else: there is no probing for older variants
+    (a revert of 9ba238f / 56b164f shows up as a disagreement resp. an ASan abort of the harness)."""
+    exe = parse_harness(ctx)
     lines = []
     cdir = vlib.CORPUS / "C07"
     if cdir.exists():
         for p in sorted(cdir.glob("parse*.txt")):
             lines += [l for l in p.read_text().splitlines() if l.strip() and not l.startswith("#")]
     ncorpus = len(lines)
-    lines += gen_parser_lines(ctx, numfx, paxfx)
-    ctx.log("parser units: %d lines (read_binary variant %d, pax variant %d)" % (len(lines), numfx, paxfx))
-    model = ctx.driver(["c07"], "\n".join(lines) + "\n", timeout=3600)
-    skipped = 0
-    if not paxfx:
-        # the shipped code would abort the harness on these (use after free, reported above): keep them out of the stream
-        keep = [i for i, m in enumerate(model) if not (lines[i].startswith("pax ") and m == "oob")]
-        skipped = len(lines) - len(keep)
-        lines = [lines[i] for i in keep]
-        model = [model[i] for i in keep]
-    impl, _m, crashes = run_chunks(ctx, exe, ["c07"], lines, jobs(ctx), want_model=False)
+    lines += gen_parser_lines(ctx)
+    per_op = {}
+    for l in lines:
+        per_op[l.split()[0]] = per_op.get(l.split()[0], 0) + 1
+    missing = [op for op in PARSE_OPS if per_op.get(op, 0) < 50]
+    infra(not missing, "parser units: the generators produced (almost) nothing for %s" % missing)
+    ctx.log("parser units: %d lines %s" % (len(lines), per_op))
+    ctx.rng.shuffle(lines)              # the expensive ops (gl, rh, pax) spread evenly over the worker chunks
+    t0 = time.time()
+    n = jobs(ctx)
+    # model and harness on the same chunks, concurrently
+    impl, model, crashes = run_chunks(ctx, exe, ["c07"], lines, n)
     for bad, rc, err in crashes[:5]:
         ctx.violation(crash_key(err) or ("parse-crash:" + vlib.sha(bad)[:12]), "parser unit aborted (rc=%s) on %s: %s" % (rc, bad[:200], san_head(err)),
                       {"unit": "parse", "line": bad, "stderr": err})
+    infra(len(lines) == len(impl) == len(model), "parser units: %d lines, %d / %d answers" % (len(lines), len(impl), len(model)))
     hist, mism, bounds = {}, [], 0
     for l, a, b in zip(lines, impl, model):
         op = l.split()[0]
-        k = "%s:%s" % (op, b.split()[0])
+        k = "%s:%s" % (op, " ".join(b.split()[:2]) if b.startswith("fail") else b.split()[0])
         hist[k] = hist.get(k, 0) + 1
         if b in ("oob", "spin"):
             bounds += 1
@@ -485,8 +669,15 @@ def check_parsers(ctx, stats):
         else:
             what = "parser unit: real code answers %r, model %r on %s" % (a, b, l[:300])
         ctx.violation("parse-corr:" + vlib.sha(l)[:12], what, {"unit": "parse", "line": l, "impl": a, "model": b}, found_input=False)
-    stats["parse"] = {"evaluations": len(lines), "corpus": ncorpus, "variant_read_binary_fixed": numfx, "variant_pax_uaf_fixed": paxfx,
-                      "uaf_sequences_kept_from_harness": skipped, "model_answer_histogram": dict(sorted(hist.items())),
+    # every op must have been answered both ways (accepting and rejecting) by the model: a generator that only produces
+    # rejected inputs compares nothing
+    for op in PARSE_OPS:
+        oks = sum(v for k, v in hist.items() if k == op + ":ok")
+        infra(oks > 0, "parser units: no accepted input for op %s" % op)
+        if op != "gl":
+            infra(sum(v for k, v in hist.items() if k.startswith(op + ":fail")) > 0, "parser units: no rejected input for op %s" % op)
+    stats["parse"] = {"evaluations": len(lines), "corpus": ncorpus, "per_op": per_op, "wall_s": round(time.time() - t0, 1),
+                      "model_answer_histogram": dict(sorted(hist.items())),
                       "model_oob_or_spin_answers": bounds, "mismatches": len(mism),
                       "samples": [{"line": lines[i][:200], "impl": impl[i][:200], "model": model[i][:200]} for i in (0, len(lines) // 2, len(lines) - 1)]}
     nontriv = sum(v for k, v in hist.items() if not k.endswith(":ok"))
@@ -759,15 +950,13 @@ def replay(ctx, path):
         return 1 if crash or bad or impl != model else 0
     if rp.get("unit") == "parse" and "line" in rp:
         ctx.lean_build(["sqfsmodel"])
-        lib = ctx.build_lib("san")
-        exe = ctx.cc("h_c07_parse", ["h_c07_parse.c"], flags=["-I%s" % (vlib.REPO / "bin" / "gensquashfs" / "src")],
-                     libs=[str(lib)] + vlib.CODEC_LIBS + (["-lselinux"] if os.path.exists("/usr/include/selinux/selinux.h") else []))
+        exe = parse_harness(ctx)
         impl, crash = run_harness(ctx, exe, [rp["line"]], timeout=120)
         model = ctx.driver(["c07"], rp["line"] + "\n")
         print("line  :", rp["line"][:400])
         print("impl  :", impl, "crash:", (crash[1], san_head(crash[2])) if crash else None)
         print("model :", model)
-        return 1 if crash or not impl or not same_answer(rp["line"].split()[0], impl[0], model[0]) else 0
+        return 1 if crash or not impl or not model or not same_answer(rp["line"].split()[0], impl[0], model[0]) else 0
     if rp.get("unit") == "tool-tar" and "data_b64" in rp:
         ctx.lean_build(["sqfsmodel"])
         T = TL.Tools(ctx)
